@@ -916,6 +916,11 @@ impl MDL {
     }
 
     pub(crate) fn update_headers(&mut self) {
+        // the runtime size below depends on the shape table counts
+        self.model_data.header.shape_count = self.model_data.shapes.len() as u16;
+        self.model_data.header.shape_mesh_count = self.model_data.shape_meshes.len() as u16;
+        self.model_data.header.shape_value_count = self.model_data.shape_values.len() as u16;
+
         // update values
         for i in 0..self.file_header.lod_count {
             let mut vertex_offset = 0;
@@ -1009,10 +1014,6 @@ impl MDL {
         for i in 0..self.lods.len() {
             self.file_header.index_offsets[i] = self.model_data.lods[i].index_data_offset;
         }
-
-        self.model_data.header.shape_count = self.model_data.shapes.len() as u16;
-        self.model_data.header.shape_mesh_count = self.model_data.shape_meshes.len() as u16;
-        self.model_data.header.shape_value_count = self.model_data.shape_values.len() as u16;
     }
 
     pub fn write_to_buffer(&self) -> Option<ByteBuffer> {
